@@ -176,9 +176,35 @@ def make_device(case, ts):
 
     twice = case["fseed"] % 4 == 1
 
-    def program(self):
+    # single bits are also read by comparing them with 1 / 0 explicitly
+    # (`with self.switch == 1:` in a program, `if self.switch == 1:` in
+    # Python)
+    cmp_style = [None, "== 1", "!= 1", "== 0"][case["fseed"] % 4]
+
+    def isbit(i):
+        l = links[i]
+        d = case["terms"][l["term"]]
+        ents = d["ins"] if l["sm"] == "IN" else d["outs"]
+        return isinstance(l["override"], list) or (
+            not l["override"] and ents[l["entry"]][0] == "bit")
+
+    def compared(self, i, fast):
+        v = tv(self, i)
+        c = {"== 1": lambda: v == 1, "!= 1": lambda: v != 1,
+             "== 0": lambda: v == 0}[cmp_style]()
+        if not fast:
+            setattr(self, f"dv{i}", 1 if c else 0)
+            return
+        with c as Else:
+            setattr(self, f"dv{i}", 1)
+        with Else:
+            setattr(self, f"dv{i}", 0)
+
+    def program(self, fast=True):
         for i, l in enumerate(links):
-            if l["mode"] == "read":
+            if l["mode"] == "read" and cmp_style and isbit(i):
+                compared(self, i, fast)
+            elif l["mode"] == "read":
                 setattr(self, f"dv{i}", tv(self, i))
             else:
                 if twice:
@@ -188,7 +214,7 @@ def make_device(case, ts):
                 settv(self, i, getattr(self, f"dv{i}"))
 
     def update(self):
-        program(self)
+        program(self, fast=False)
 
     def tv(self, i):
         l = links[i]
@@ -314,6 +340,13 @@ def check_case(case, res):
                            f"{[sgs.pdo_assign.get(a) for a in tss]} vs "
                            f"{[sgf.pdo_assign.get(b) for b in tsf]}")
                 return
+            # where the working counters of the frame lie (parsed from the
+            # pristine frame by the harness's own parser)
+            from .. import frames as _frames
+            wkc_at = set()
+            for d_ in _frames.parse(bytes(sgf.packet.sterile(3, 0x3333)),
+                                    strict=False)[2]:
+                wkc_at.update((d_.wkc_pos, d_.wkc_pos + 1))
             for rep in range(4):
                 payload = bytearray(sgf.packet.sterile(3, 0x3333))
                 for i in range(16, len(payload)):
@@ -358,6 +391,15 @@ def check_case(case, res):
                     if l["mode"] == "read":
                         if isinstance(f, tuple):
                             reads[i] = (exp[off] >> f[1]) & 1
+                            # (the device may read the bit by comparing it:
+                            # see make_device)
+                            style = [None, "== 1", "!= 1",
+                                     "== 0"][case["fseed"] % 4]
+                            if style in ("!= 1", "== 0"):
+                                reads[i] ^= 1
+                            if style:
+                                res.count("bits_read_by_comparison["
+                                          + style + "]")
                         else:
                             reads[i], = struct.unpack_from("<" + f, exp, off)
                     else:
@@ -386,7 +428,19 @@ def check_case(case, res):
                 for i, v in vals.items():
                     setattr(devs, f"dv{i}", v)
                 try:
-                    devs.update()
+                    if rep % 2:
+                        # the way a received frame reaches the devices
+                        # (SyncGroupBase.run -> update_devices)
+                        import logging as _lg
+                        sgs.wkc_errors = 0      # (as SyncGroup.run does)
+                        _lg.disable(_lg.WARNING)
+                        try:
+                            sgs.update_devices(bytes(payload))
+                        finally:
+                            _lg.disable(_lg.NOTSET)
+                        res.count("slow_cycles_through_update_devices")
+                    else:
+                        devs.update()
                 except Exception as ex:
                     res.case([case, rep], nontrivial=True)
                     res.violation(
@@ -418,7 +472,7 @@ def check_case(case, res):
                             f"bytes decode to {want}", case=case,
                             witness=ebpfvm.disasm(ld.code)[:80])
                         return
-                data_ok_slow = same_data(sgf, slow_frame, exp)
+                data_ok_slow = same_data(sgf, slow_frame, exp, wkc_at)
                 data_ok_fast = same_data(sgf, fast_frame, exp)
                 if data_ok_slow is not None:
                     res.violation(
@@ -452,10 +506,10 @@ def ecat_frame(payload):
     return bytes.fromhex("ffffffffffff02000000000188a4") + bytes(payload)
 
 
-def same_data(sg, got, exp):
+def same_data(sg, got, exp, also_skip=()):
     """compare the data areas of all datagrams (commands and counters of
     writer datagrams are the group program's business, C21)"""
-    skip = set()
+    skip = set(also_skip)
     for start, stop, cmd in sg.packet.on_the_fly:
         skip.add(start)
         skip.update((stop - 2, stop - 1))
